@@ -346,3 +346,33 @@ def c05_plan(pid, tier, seed, t0):
 
 
 PLANS["C05"] = c05_plan
+
+
+PLANS["C02"] = generic(
+    "c02",
+    rule="(a) direct calls of each of the 26 built-ins with generated well-typed argument tuples (arrays of length 0..80 incl. >20 with heavy "
+    "key duplicates and unique id tags, Unicode strings incl. astral/combining, negative/fractional numbers, overlapping objects, numeral "
+    "near-misses), arguments given as literals or as paths into a document, compared with reference functions that state the contract "
+    "(stable sort exact, max_by/min_by any extreme element, sum/avg within 1e-9 of the magnitude sum, to_string by re-parsing); (b) a "
+    "recording custom function inside the expression reference of map/sort_by/max_by/min_by: the multiset of recorded arguments must equal the "
+    "array's elements, each once; (c) value-guided random trees containing calls nested in projections, multi-selects and other calls vs the "
+    "reference evaluator. Non-trivial = non-empty principal argument / non-null nested result; distinct by (expression, document).",
+    n_quick=480_000,
+    n_thorough=24_000_000,
+    min_evaluations=200_000,
+    assumptions=["not asserted: which of several equal-key elements max_by/min_by returns; whitespace-padded or out-of-range numerals in to_number; non-finite sums; exprefs passed for 'any' parameters"],
+)
+
+PLANS["C06"] = generic(
+    "c06",
+    rule="exhaustive decision table: 26 built-ins + 3 unknown names x argument counts 0..declared+2 x 10 type classes per position (null, boolean, "
+    "number, string, [], [numbers], [strings], [mixed], object, expression reference) = 112219 cells; every cell instantiated with 3 "
+    "(wrong arity) or 18 (right arity) random representatives, arguments alternately given as literals and as paths into a document. Oracle = "
+    "the specification's signature table: arity error wins; else any ill-typed position is a type error (kind only); else the call succeeds "
+    "and its result type is in the declared set. Non-trivial = cell with a decided outcome; distinct by cell.",
+    n_quick=1,
+    n_thorough=1,
+    min_evaluations=300_000,
+    exhaustive=True,
+    assumptions=["cells where a parameter declared 'any' receives an expression reference are unconstrained and counted"],
+)
